@@ -42,31 +42,35 @@ theorem dstAny_good {src dst : Ty} {c : Coercer} (h : stepDstAny dst = .ok c) :
 /-- the semantic content of "non-generic subclass": instances of the subclass are instances
     of the superclass -/
 theorem subclass_sem (hW : WorldOk cfg S) {s d : Ty} {a b : Nat}
-    (hs : classOrigin s = some a) (hd : classOrigin d = some b) (hab : cfg.sub a b = true)
+    (hs : classOriginSrc s = some a) (hd : classOriginDst d = some b) (hab : cfg.sub a b = true)
     (v : Val) (hv : HasTy cfg S s v) : HasTy cfg S d v := by
   -- destination
-  have hdst : d = .any ∨ d = .cls b [] := by
+  have hdst : d = .cls b [] := by
     cases d with
-    | any => exact .inl rfl
     | cls c args =>
       cases args with
-      | nil => simp [classOrigin] at hd; subst hd; exact .inr rfl
-      | cons _ _ => simp [classOrigin] at hd
-    | _ => simp [classOrigin] at hd
-  rcases hdst with rfl | rfl
-  · exact .any v
+      | nil => simp [classOriginDst] at hd; subst hd; rfl
+      | cons _ _ => simp [classOriginDst] at hd
+    | _ => simp [classOriginDst] at hd
+  subst hdst
   -- source
-  have hsrc : (s = .any ∧ a = anyCls) ∨ s = .cls a [] := by
+  have hsrc : (s = .ftuple [] ∧ a = Conc.tuple.cls) ∨ s = .cls a [] := by
     cases s with
-    | any => simp [classOrigin] at hs; exact .inl ⟨rfl, hs.symm⟩
+    | ftuple es =>
+      cases es with
+      | nil => simp [classOriginSrc] at hs; exact .inl ⟨rfl, hs.symm⟩
+      | cons _ _ => simp [classOriginSrc] at hs
     | cls c args =>
       cases args with
-      | nil => simp [classOrigin] at hs; subst hs; exact .inr rfl
-      | cons _ _ => simp [classOrigin] at hs
-    | _ => simp [classOrigin] at hs
+      | nil => simp [classOriginSrc] at hs; subst hs; exact .inr rfl
+      | cons _ _ => simp [classOriginSrc] at hs
+    | _ => simp [classOriginSrc] at hs
   rcases hsrc with ⟨rfl, rfl⟩ | rfl
-  · obtain ⟨hsh, htop⟩ := hW.any_top b hab
-    exact .plain hsh (htop _)
+  · cases hv with
+    | ftuple _ _ =>
+      cases hshb : cfg.shape b [] with
+      | none => exact .plain hshb hab
+      | some fb => exact absurd hshb (fun h => hW.tuple_plain b fb hab h)
   · cases hshb : cfg.shape b [] with
     | none =>
       cases hv with
